@@ -144,21 +144,41 @@ def incarnation(req):
     BI = importer.BasilispImporter
     orig_cached, orig_src, orig_set = BI._exec_cached_module, BI._exec_module, BI.set_data
 
-    def w_cached(self, fullname, loader_state, path_stats, module):
+    # (the two helpers are private: wrap them whatever their parameter list is, keyed on the module name)
+    def w_cached(self, fullname, *a, **kw):
         if fullname != modname:
-            return orig_cached(self, fullname, loader_state, path_stats, module)
+            return orig_cached(self, fullname, *a, **kw)
         try:
-            r = orig_cached(self, fullname, loader_state, path_stats, module)
+            r = orig_cached(self, fullname, *a, **kw)
             path.append("cached-ok")
             return r
         except BaseException as e:  # noqa: BLE001
             path.append(f"cached-failed:{type(e).__name__}:effects={len(fx.effects)}")
             raise
 
-    def w_src(self, fullname, loader_state, path_stats, module):
+    def w_src(self, fullname, *a, **kw):
         if fullname == modname:
             path.append("source")
-        return orig_src(self, fullname, loader_state, path_stats, module)
+        return orig_src(self, fullname, *a, **kw)
+
+    # a source edit that lands DURING this load: after the source has been read and compiled, before the cache
+    # is written (an editor save, a deploy, a git checkout racing the import)
+    edit = req.get("edit_during")
+    edited = []
+    if edit:
+        from basilisp.lang import compiler as _compiler
+        orig_cm = _compiler.compile_module
+
+        def w_cm(*a, **kw):
+            r = orig_cm(*a, **kw)
+            if not edited and path and path[-1] == "source":
+                with open(edit["path"], "w") as f:
+                    f.write(edit["text"])
+                os.utime(edit["path"], (edit["mtime"], edit["mtime"]))
+                edited.append(True)
+                path.append("source-edited-during-load")
+            return r
+        _compiler.compile_module = w_cm
 
     crash = req.get("crash")
 
@@ -187,6 +207,7 @@ def incarnation(req):
         rep["error"] = f"{type(e).__name__}: {e}"[:500]
         rep["trace"] = traceback.format_exc()[-1500:]
     rep["path"] = path
+    rep["edited"] = bool(edited)
     rep["effects"] = list(fx.effects)
     if rep["ok"]:
         try:
